@@ -290,6 +290,63 @@ def twins_case(rng):
     return "seq %s %s | %s" % (x, y, " ".join(steps))
 
 
+# ---- "hp": WIDE isolating intervals with a HIGH-PRECISION end point (k/2^60, k/2^100, k/2^130 next to an end with a
+# small denominator), given explicitly or produced by a history (cmp with a high-precision point inside the interval
+# refines the operand WITH that point); observed through to_double / to_rational (defect: the number of bisections
+# was taken from the denominator exponent of b - a, not from its size)
+def hp_token(rng, p, idx=None):
+    """a: token for a root of p with a wide interval, one end moved by a tiny 2^-e towards the root"""
+    P = Poly.get(p)
+    iso = P.isolate()
+    if idx is None:
+        idx = rng.randrange(len(iso))
+    tok, _ = alg_token(rng, p, idx, rng.choice(["wide", "wide", "iso"]))
+    _, cs, lo, hi = tok.split(":")
+    def fr(s):
+        a, n = s.split("/")
+        return F(int(a), 2 ** int(n))
+    lo, hi = fr(lo), fr(hi)
+    e = rng.choice([60, 100, 130, 101, 99])
+    k = rng.choice([1, 3, 2 ** 20 + 1])
+    if rng.random() < 0.5:
+        lo2 = lo + F(k, 2 ** e)
+        if peval(P.p, lo2) != 0 and lo2 < hi and P.count(lo2, hi) == 1 and peval(P.p, lo2) * peval(P.p, hi) < 0:
+            lo = lo2
+    else:
+        hi2 = hi - F(k, 2 ** e)
+        if peval(P.p, hi2) != 0 and lo < hi2 and P.count(lo, hi2) == 1 and peval(P.p, lo) * peval(P.p, hi2) < 0:
+            hi = hi2
+    return "a:%s:%s:%s" % (cs, dy_tok(lo), dy_tok(hi)), (P, idx)
+
+
+def hp_case(rng):
+    p = rng.choice(FIXED + [random_poly(rng)])
+    p = primitive(p)
+    k = rng.random()
+    obs = ["todbl:0", "torat:0"]
+    if k < 0.5:
+        x, _ = hp_token(rng, p)
+        steps = list(obs)
+        if rng.random() < 0.5:
+            steps += ["copy:1:0", "refine:1", "todbl:1", "torat:1", "cmp:0:1"]
+        if rng.random() < 0.4:
+            steps += ["neg:2:0", "todbl:2", "torat:2"]
+        return "seq %s | %s" % (x, " ".join(steps))
+    # history: a point with a high-precision value just below / above the root, compared with the number
+    x, info = alg_token(rng, p) if rng.random() < 0.6 else ("r:%s:%d" % (coeffs(p), rng.randrange(Poly.get(p).nroots)), None)
+    if info is None:
+        P = Poly.get(p)
+        info = (P, int(x.rsplit(":", 1)[1]))
+    lo, hi = approx(info[0], info[1], rng.choice([3, 4, 5, 6]))
+    e = rng.choice([60, 100, 130, 99, 101])
+    v = (lo - F(1, 2 ** e)) if rng.random() < 0.5 else (hi + F(3, 2 ** e))
+    pt = "d:%s" % dy_tok(v)
+    steps = ["cmp:0:1", "todbl:0", "torat:0", "cmp:1:0", "todbl:0"]
+    if rng.random() < 0.5:
+        steps += ["sub:2:0:1", "todbl:2", "torat:2"]
+    return "seq %s %s | %s" % (x, pt, " ".join(steps))
+
+
 def random_poly(rng):
     while True:
         d = rng.choice([2, 3, 3, 4, 4])
@@ -532,6 +589,8 @@ def one_case(rng, tier):
         return high_degree_case(rng)
     if rng.random() < 0.08:
         return twins_case(rng)
+    if rng.random() < 0.07:
+        return hp_case(rng)
     kind = rng.random()
     if kind < 0.04:
         pool, steps = rng.choice(COLLAPSE)
@@ -646,6 +705,9 @@ def tag(case):
         return "touching"
     if bar == 3 and t[1].startswith("a:") and t[2].startswith("a:") and t[1].split(":")[2:] == t[2].split(":")[2:]:
         return "twins"
+    if any(s.startswith("todbl:") or s.startswith("torat:") for s in t[bar + 1:]) and any(
+            x[:2] in ("a:", "d:") and any(int(f.split("/")[1]) >= 55 for f in x.split(":")[1:] if "/" in f and "," not in f) for x in t[1:bar]):
+        return "hp-approx"
     if any(len(x.split(":")) > 1 and x[0] in "ra" and x.split(":")[1].count(",") >= 5 for x in t[1:bar]):
         return "highdeg-" + t[bar + 1].split(":")[0]
     if bar + 1 >= len(t):
